@@ -628,7 +628,7 @@ def _r8_pairing(run):
                                     if isinstance(x, ast.For) and loop is None:
                                         loop = x
                                 if m == "append" and loop is not None and _over_descriptions(loop.iter) and not cond:
-                                    skips = [y for y in ast.walk(loop) if isinstance(y, (ast.Continue, ast.Break))]
+                                    skips = _own_loop_exits(loop)
                                     if skips:
                                         bad.append((f, st, "is filled by an append that `continue` / `break` can skip for some inputs"))
                                     else:
@@ -663,3 +663,24 @@ def _over_descriptions(it):
     while isinstance(it, ast.Call) and isinstance(it.func, ast.Name) and it.func.id in ("enumerate", "list", "tuple", "iter") and it.args:
         it = it.args[0]
     return isinstance(it, ast.Call) and isinstance(it.func, ast.Attribute) and it.func.attr == "descriptions"
+
+
+def _own_loop_exits(loop):
+    """continue / break statements that belong to *loop* itself (not to a loop nested in its body)."""
+    out = []
+
+    def visit(stmts):
+        for st in stmts:
+            if isinstance(st, (ast.Continue, ast.Break)):
+                out.append(st)
+            elif isinstance(st, (ast.For, ast.While)):
+                visit(st.orelse)            # the else clause of an inner loop runs in the outer loop's context
+            elif isinstance(st, (ast.FunctionDef, ast.AsyncFunctionDef, ast.ClassDef)):
+                continue
+            else:
+                for field in ("body", "orelse", "finalbody"):
+                    visit(getattr(st, field, []) or [])
+                for h in getattr(st, "handlers", []) or []:
+                    visit(h.body)
+    visit(loop.body)
+    return out
